@@ -139,7 +139,7 @@ def decodeBytes (buf : Buffer) (length : Nat) : Out (Buffer × List Nat) :=
   go buf #[] length
 
 /-- the repaired source rejects a table entry of 0 (unassigned code); the pinned source writes U+0000 -/
-def KANJI_REJECTS_UNASSIGNED : Bool := false
+def KANJI_REJECTS_UNASSIGNED : Bool := true
 
 /-- Go: `DecodeKanji(buf, length)` -/
 def decodeKanji (buf : Buffer) (length : Nat) : Out (Buffer × List Nat) :=
